@@ -534,6 +534,21 @@ def inputs():
         i['reject'] = ['<type name="%s"' % never]
         out.append(i)
 
+    # SECTION ids that differ only in case: sections are looked up by exact key, so exactly
+    # SECTION:foobar documents FooBar and the others stay standalone <docsection>s, in any block order
+    out.append(_inp('sections-case', [
+        Typedef('FooBar', 'struct _FooBar'),
+        Struct('_FooBar', [Field('n', 'int')]),
+        Func('foo_bar_do', 'void', [('FooBar*', 'bar')]),
+        Const('FOO_BAR_MAX', 3),
+    ], files=[A, B, A, B], blocks=[
+        B_('SECTION:FooBar', desc='Mixed case section.'),
+        B_('SECTION:foobar', desc='Lower case section: documents the record.'),
+        B_('foo_bar_do', [('bar', '', 'a bar')], desc='Does it.'),
+        B_('SECTION:FOOBAR', desc='Upper case section.'),
+        B_('FooBar', [('n', '', 'the n')], desc='The record block.'),
+    ]))
+
     # the same #define in two headers (first definition wins, documented in transformer.py)
     out.append(_inp('dup-const', [
         Const('FOO_DUP', 7),
